@@ -309,7 +309,10 @@ def make_container(kind, coords, n):
     raise ValueError(kind)
 
 
-def positions_case(rng, ctx, scn, K, mon, forced=None):
+FLAG_FORMS = (bool, np.bool_, int)
+
+
+def positions_case(rng, ctx, scn, K, mon, forced=None, flag_form=None):
     """Accessors on data arrays / datasets, incl. translation invariance."""
     n = int(rng.integers(1, 33))
     unit = LEN_UNITS[rng.integers(0, 5)]
@@ -341,9 +344,13 @@ def positions_case(rng, ctx, scn, K, mon, forced=None):
             'source': [float(x).hex() for x in source], 'sample': [float(x).hex() for x in sample],
             'position0': [float(x).hex() for x in pos[0]]}
     mon.origin = 'accessor'
+    # the scatter flag is a truth value: callers also pass numpy booleans (np.any(...), HDF5 attributes) or 0/1
+    form = FLAG_FORMS[int(rng.integers(0, len(FLAG_FORMS)))] if flag_form is None else flag_form
+    ctx.hit('scatter flag given as ' + form.__name__)
+    case['scatter_flag_type'] = form.__name__
     got = {
         'L1': scn.L1(da), 'L2': scn.L2(da), 'two_theta': scn.two_theta(da),
-        'Ltotal_scatter': scn.Ltotal(da, scatter=True), 'Ltotal_noscatter': scn.Ltotal(da, scatter=False),
+        'Ltotal_scatter': scn.Ltotal(da, scatter=form(True)), 'Ltotal_noscatter': scn.Ltotal(da, scatter=form(False)),
         'incident_beam': scn.incident_beam(da), 'scattered_beam': scn.scattered_beam(da),
     }
     for nm_, ref_ in (('position', pos), ('source_position', source), ('sample_position', sample)):
@@ -469,7 +476,8 @@ def requirements(tier):
                           'accessor.two_theta', 'accessor.Ltotal_noscatter', 'invariance.rotation',
                           'invariance.translation', 'invariance.swap')}
     return {'events': ev, 'forced': ['angle:' + c for c in ANGLE_CLASSES] + ['axis-aligned beamline, sample at origin', 'per-pixel incident, scalar scattered', 'beams along different dimensions']
-            + ['accessor container ' + c for c in sorted(set(CONTAINERS))]}
+            + ['accessor container ' + c for c in sorted(set(CONTAINERS))]
+            + ['scatter flag given as ' + f.__name__ for f in FLAG_FORMS]}
 
 
 def run(shard, ctx):
@@ -510,7 +518,7 @@ def run(shard, ctx):
             kinds = sorted(set(CONTAINERS))
             container = kinds[i % len(kinds)]  # every kind of container in every shard
             try:
-                sig = positions_case(rng, ctx, scn, K, mon, forced=container)
+                sig = positions_case(rng, ctx, scn, K, mon, forced=container, flag_form=FLAG_FORMS[(i // len(kinds)) % 3 if i >= len(kinds) else i % 3])
                 ctx.case(sig)
                 if i < 2:
                     ctx.sample({'family': 'accessors', 'signature': sig})
